@@ -9,3 +9,9 @@ int g_W_calls;
  * `requires(g_bN == <pre-state expression>)` and read back in `ensures` (nothing assigns them) */
 _Bool g_b0, g_b1, g_b2, g_b3;
 unsigned long long g_u0, g_u1, g_u2, g_u3;
+#ifdef UNIT_QUEUE
+Slot g_S[2]; Slot g_anon; _Bool g_cons[2]; int g_argid[2]; int g_disp[2]; unsigned long g_seq, g_dseq[2]; _Bool g_born[2]; _Bool g_taken[2]; _Bool g_dead[2];
+const char g_dtor_tag_QueuedEvent;
+WList *g_rm_list; long g_rm_idx; WList *g_ins_list; long g_ins_idx;
+#endif
+_Bool g_in_processing;
